@@ -142,6 +142,7 @@ inline Msg gen_request(const Opts &o, int idx, bool first) {
     std::string host = "h" + gen_token(1, 5) + ".example"; int port = rcx::chance(1, 3) ? rcx::range(1, 65535) : -1;
     std::string path = "/" + m.tag; if (rcx::coin()) path += "/" + gen_token(1, 6); if (rcx::chance(1, 3)) path += "?" + gen_token(1, 3) + "=" + gen_token(0, 4) + (rcx::coin() ? "&" + gen_token(1, 3) + "=" + gen_token(0, 3) : "");
     bool absolute = o.absolute_uri && rcx::chance(1, 5);
+    if (absolute && rcx::chance(1, 6)) path = "?" + m.tag + "=" + gen_token(0, 4); // an absolute-form target may have an empty path directly followed by the query
     if (absolute) { std::string auth = host; if (rcx::chance(1, 4)) auth = "u" + gen_token(1, 3) + (rcx::coin() ? ":p" + gen_token(1, 3) : "") + "@" + auth; if (port > 0) auth += ":" + std::to_string(port); m.target = "http://" + auth + path; }
     else m.target = path;
     // headers
